@@ -1,5 +1,6 @@
 import PqV.Drv.Proto
 import PqV.Impl.Dataset
+import PqV.Impl.DatasetOps
 /- Drv.Fs — `fs.*` stream: append traces and crash outcomes. Directories travel as hex text. -/
 namespace PqV.Drv
 open PqV.Impl.Dataset
@@ -42,5 +43,48 @@ def handleFs (op : String) (a : Args) : String :=
     | some rows => s!"ok read={showNats rows}"
     | none => "ok read=none"
   | _ => s!"err unknown-op fs {op}"
+
+end PqV.Drv
+
+namespace PqV.Drv
+open PqV.Impl.Dataset PqV.Impl.DatasetOps
+
+def parseNDs (s : String) : NewData :=
+  (splitTop s).map fun rg => (splitTop rg).map fun piece => match splitTop piece with
+    | [d, rows] => (dirOf d, (splitTop rows).map (·.toNat!))
+    | _ => ("", [])
+
+def showDS (ds : DS) : String :=
+  let hexd (d : String) := toHex (d.toList.map Char.toNat)
+  let fl := ds.files.map (fun f => (hexd f.1.1, f.1.2, f.2))
+  -- canonical: sort files by (dir, id) text
+  let key (t : String × Nat × List Nat) := t.1 ++ ":" ++ toString (1000000000 + t.2.1)
+  let sorted := (fl.toArray.qsort (fun a b => key a < key b)).toList
+  let sf := sorted.map (fun t => s!"[{t.1},{t.2.1},{showNats t.2.2}]")
+  let sr := ds.refs.map (fun r => s!"[{hexd r.dir},{r.id},{showNats r.rows}]")
+  s!"files={showList sf};refs={showList sr};agree={if agree ds then 1 else 0}"
+
+def stepDS (ds : DS) (op : String) : Except String DS :=
+  match splitTop op with
+  | ["w", nd] => .ok (addNew { files := [], refs := [] } (parseNDs nd))
+  | ["a", nd] => .ok (addNew ds (parseNDs nd))
+  | ["o", nd, sp] => overwrite ds (parseNDs nd) (sp != "0")
+  | ["r", idxs, sp] => removeRGs ds ((splitTop idxs).map (·.toNat!)) (sp != "0")
+  | ["g", nd, sp] => writeSorted ds (parseNDs nd) (sp != "0")
+  | ["s"] => sortPartNames ds
+  | _ => .error "bad-op"
+
+def handleDs (op : String) (a : Args) : String :=
+  match op with
+  | "run" =>
+    let ops := a.list "ops"
+    let (_, outs) := ops.foldl (fun (st : Except String DS × List String) o =>
+      match st.1 with
+      | .error e => (.error e, st.2 ++ ["err"])
+      | .ok ds => match stepDS ds o with
+        | .ok ds' => (.ok ds', st.2 ++ [showDS ds'])
+        | .error e => (.error e, st.2 ++ [s!"err:{e.replace " " "_"}"])) (.ok { files := [], refs := [] }, [])
+    "ok steps=" ++ "|".intercalate outs
+  | _ => s!"err unknown-op ds {op}"
 
 end PqV.Drv
